@@ -239,12 +239,12 @@ def check(prop, tier, seed, replay=None):
             parts.append(run_part(prop, binary, wd, "mem2", "ScnFaultMem", 2, "FaultKinds", C18_INV, "bfs", cap, seed))
         level = "fault_enumeration"
     else:
-        cap = 3000 if tier == Q else 120000
+        cap = 3000 if tier == Q else 30000
         mode = "sim" if tier == Q else "bfs"
         parts.append(run_part(prop, binary, wd, "c2", "ScnConc2", 0, "FaultKinds", C19_INV, mode, cap, seed))
         parts.append(run_part(prop, binary, wd, "c3", "ScnConc3", 0, "FaultKinds", C19_INV, mode, cap, seed))
         # three complete requests at once: the design is model-checked exhaustively, the schedules are always sampled
-        parts.append(run_part(prop, binary, wd, "c3b", "ScnConc3Big", 0, "FaultKinds", C19_INV, "sim", 800 if tier == Q else 40000, seed))
+        parts.append(run_part(prop, binary, wd, "c3b", "ScnConc3Big", 0, "FaultKinds", C19_INV, "sim", 800 if tier == Q else 10000, seed))
         level = "model_checking"
     nviol, notes, known, replays = report(prop, parts, binary, wd, findings)
     ncorrupt = selftest_steps(binary, parts[0]["histories"], wd)
